@@ -98,6 +98,14 @@ class Builder:
             return fn(*args)
         if t == 'kl':
             return rso.kldiv(self.ev(e[1]), const(e[2]), e[3])
+        if t == 'concat':
+            return rso.concat(tuple(self.ev(x) for x in e[1:]))
+        if t == 'vec':
+            return rso.vec(*[self.ev(x) for x in e[1:]])
+        if t == 'rstack':
+            return rso.rstack(*[self.ev(x) for x in e[1:]])
+        if t == 'cstack':
+            return rso.cstack(*[self.ev(x) for x in e[1:]])
         if t == '<=':
             return self.ev(e[1]) <= self.ev(e[2])
         if t == '>=':
